@@ -19,6 +19,7 @@ Definition out_eqb (a b : out) : bool :=
   | OPass w n, OPass w' n' => option_eqb N.eqb w w' && (n =? n')
   | OCookie w r, OCookie w' r' => option_eqb N.eqb w w' && Bool.eqb r r'
   | OUser w, OUser w' => w =? w'
+  | ORehash a, ORehash b => Bool.eqb a b
   | _, _ => false
   end.
 
